@@ -256,7 +256,9 @@ PROPS = {
                     "model = Spec per query (sections as RR sets, address records relationally), plus pairwise agreement of the "
                     "four storage configurations.",
             "note": "Partial: forced hypotheses (each with a kernel-checked counterexample) SoaHasNs, NsParse, TargetsOK "
-                    "(additional-section targets lower-case and distinct), LinesOK (a generic ':' line of type A/AAAA has at least 4 "
+                    "(additional-section targets lower-case and distinct; serve_v1_refines_spec_anycase / "
+                    "file_served_as_declared_anycase need only TargetsLowOK = distinct after lower-casing and conclude equality up to "
+                    "the case of additional owner names), LinesOK (a generic ':' line of type A/AAAA has at least 4 "
                     "rdata bytes), TagOK (the client location is not one of the three 2-byte key markers), SoaDet for arbitrary "
                     "permutations; the model codec is tied to the real one by the correspondence (and C09), not by a theorem; "
                     "typed-RR (un)packing by miekg is compared on the wire; files violating SoaHasNs get no Spec verdict.",
@@ -302,14 +304,18 @@ PROPS = {
     },
     "C03": {
         "manifest": {
-            "text": "Lean 4: Spec.lpm (longest declared subnet of the client's family containing it, not longer than the client's "
-                    "prefix) and Spec.mapFor; theorems cidr_laminar, lpm characterisation, exact-before-wildcard map choice, "
-                    "CDB lookup = lpm, and the rearranger / range-point results listed in the evidence (sweep invariant or the "
-                    "verified table checker), with proved negative witnesses for the well-formedness conditions W2/W3. "
-                    "Correspondence: random subnet sets (nested chains, adjacent blocks, edges of the address space, blocks "
-                    "touching ::ffff:0:0/96) compiled into all four storage configurations; Reader.FindLocation at every "
-                    "breakpoint x client prefix lengths (resolver and ECS, incl. raw ECS options with host bits set) = model = "
-                    "Spec.lpm, and pairwise equal.",
+            "text": "Lean 4 (Props/C03.lean, 24 theorems): Spec.lpm (longest declared subnet of the client's family containing "
+                    "it, not longer than the client's prefix) and Spec.mapFor; cidr_laminar, containing_chain, lpm_spec / "
+                    "lpm_none_iff / lpm_unique; mapFor_exact_before_wildcard, mapFor_nearest_wildcard, findMapV1_eq_mapFor; "
+                    "CDB: getLocationCdb_eq_lpm / _none_iff; RocksDB: sweep_invariant and rearrange_lpm (for every well-formed "
+                    "subnet set the range points the rearranger emits answer every client prefix with the longest-prefix "
+                    "match), rearrange_lpm_store / _db (through the stored keys and the SeekForPrev lookup with the "
+                    "range-point key check), client_masked, checkTable_sound (a verified table checker), proved negative "
+                    "witnesses w2_needed / w3_needed / w3_error for the well-formedness conditions. Correspondence: random "
+                    "subnet sets (nested chains, adjacent blocks incl. non-sibling neighbours, edges of the address space, "
+                    "blocks touching ::ffff:0:0/96) compiled into all four storage configurations; Reader.FindLocation at "
+                    "every breakpoint x client prefix lengths (resolver and ECS, incl. raw ECS options with host bits set) = "
+                    "model = Spec.lpm, and pairwise equal.",
             "note": "Hypotheses W1-W3 (DESIGN.md section 6 C03) are enforced by the generator and are explicit in the theorems.",
         },
         "trusted": COMMON_TRUSTED + [
@@ -325,13 +331,16 @@ PROPS = {
     },
     "C04": {
         "manifest": {
-            "text": "Lean 4: spec_frame (the Spec answer is a function of the records visible to the client's location), "
-                    "serve_v1_frame (two stores that agree on the keys tagged with the client's location or untagged give the "
-                    "same response to every query). Correspondence (metamorphic, implementation vs implementation): a file and an "
-                    "edit of it that touches only records of a foreign location or unrelated maps; every response to a client at "
-                    "location L must be identical before and after, on all four storage configurations, and equal model and Spec.",
-            "note": "Partial: the frame theorem is proved for the v1 layouts; for v2 keys (foreign keys are neighbours in key order) "
-                    "it is covered by the correspondence and by C02's equivalence.",
+            "text": "Lean 4: spec_frame / spec_foreign_edit_invariant (the Spec answer is a function of the records visible to "
+                    "the client's location), serve_v1_frame (two stores that agree on the keys tagged with the client's "
+                    "location or untagged give the same response to every query) and serve_v2_frame (the same for canonical v2 "
+                    "stores, through C02's serve_v2_eq_v1; foreign rows may be anything, including malformed), each with a "
+                    "concrete pair of stores that differ in a foreign location. Correspondence (metamorphic, implementation vs "
+                    "implementation): a file and an edit of it that touches only records of a foreign location or unrelated "
+                    "maps; every response to a client at location L must be identical before and after, on all four storage "
+                    "configurations, and equal model and Spec.",
+            "note": "Partial: serve_v2_frame needs canonical v2 keys (what the compiler writes); the variant for arbitrary v2 "
+                    "stores (serve_v2_frame_full) is an open def, neither proved nor refuted.",
         },
         "trusted": COMMON_TRUSTED + [
             "miekg/dns packing/unpacking of typed RRs and name compression (responses compared on the wire, rdata as re-packed bytes)",
@@ -345,10 +354,16 @@ PROPS = {
     },
     "C10": {
         "manifest": {
-            "text": "Lean 4: scope_bounds, scope_default, scope_zero_without_map, resolver_fallback on Spec.locate and their "
-                    "model counterparts on Loc.ecsLocation / findLocationTop (theorem list in the evidence). Correspondence: "
-                    "queries with/without OPT, ECS family 1/2/0, source lengths, non-zero query scope, extra options (cookie, "
-                    "NSID, unknown), against map/subnet configurations on four storage configurations; OPT presence, ECS "
+            "text": "Lean 4 (Props/C10.lean, 28 theorems): on the Spec: locate_eq, locate_no_ecs, scope_zero_without_map, "
+                    "scope_default(_untagged), scope_winner, scope_some_iff, resolver_fallback, scope_bounds (the echoed scope "
+                    "never exceeds 32/128 and is the matched subnet's length); on the model of Reader.EcsLocation / "
+                    "FindLocation / the handler's OPT assembly: ecsLocation_eq, ecs_scope_model, findLocation_eq, "
+                    "ecs_scope_no_map / _default / _found(_untagged), top_none, top_ecs_none / _location / _fail, "
+                    "top_scope_model, top_resolver_fallback, ecs_fields_unchanged (family, source length and address are "
+                    "echoed as sent), top_depends_only_on_query, scope_truthful_cdb(_value), scope_truthful_rdb. "
+                    "Correspondence: queries with/without OPT, ECS family 1/2/0, source lengths, non-zero query scope, extra "
+                    "options (cookie, NSID, unknown), against map/subnet configurations on four storage configurations, with "
+                    "the response cache off and on (the same question from clients with different OPT/ECS); OPT presence, ECS "
                     "fields and scope of every response (incl. REFUSED and cached paths) = model = Spec.",
             "note": "BADVERS replies carry the bare OPT built by coredns (no ECS): outside the statement's 'response' as the "
                     "handler composes it; recorded in DESIGN.md.",
@@ -496,14 +511,20 @@ PROPS = {
                     "compute, generation-checked insert, send, reload = gen++ and purge): cache_entry_current, "
                     "no_stale_after_reload (a query is only ever sent the uncached response of a generation not older than the one "
                     "it acquired), cache_invisible_seq (in every sequential history the cached handler sends exactly what the "
-                    "cache-less handler sends); old_protocol_stale documents the repaired race. Correspondence on every run: fmt "
+                    "cache-less handler sends); old_protocol_stale documents the repaired race. Link to the handler model: "
+                    "serve_depends_on_key (for one database generation and client location, two queries with the same lower-case "
+                    "name, type and class get replies equal up to the letter case of owner names - every qtype, ANY included since "
+                    "the repair of the additional-section lookup), hence keyDetermines_serve and the corollaries "
+                    "no_stale_after_reload_serve / cache_invisible_seq_serve without any hypothesis on the response function. "
+                    "Correspondence on every run: fmt "
                     "rendering against real Sprintf; hit/miss/generation traces of a real cache-enabled handler against the "
                     "machine on random histories with reloads and on yield-hook schedules (query parked at each serve.* point "
                     "across a full reload) on CDB and RocksDB v1/v2; property oracle: cache-enabled and cache-less twin handlers "
                     "fed the same history answer identically.",
-            "note": "Partial: 'uncached response is a function of the key components' is a hypothesis (KeyDetermines) checked by "
-                    "the twin-handler oracle, not proved; expiry/LRU eviction covered only as an arbitrary evict step; catch-up "
-                    "reloads are C05.",
+            "note": "Partial: weighted answers are outside (the model returns candidate sets; the cache does not store them with "
+                    "WRSTimeout 0); the location lookup and the OPT/ECS echo on a hit are outside serve (C03/C10, twin-handler "
+                    "oracle); expiry/LRU eviction covered only as an arbitrary evict step; in-flight queries across a RocksDB "
+                    "catch-up are C05's known finding.",
         },
         "trusted": COMMON_TRUSTED + [
             "harness scheduler and verif-tag yield hooks; mapping of yield points to machine positions in Driver/C12.lean",
@@ -512,6 +533,6 @@ PROPS = {
         "rule": "300 (thorough 5000) key renderings with boundary numbers; old-format collision pairs; every yield point x warm/cold "
                 "x reload x release x fresh queries per backend; 36 (1500) random sequential histories of 8-48 queries with <=3 "
                 "reloads (full reloads, and on RocksDB catch-up reloads of a private copy after ApplyDiff); race schedules across a catch-up for park points after the last read; 60 (3000) random schedules with <=3 parked queries; 10 client profiles",
-        "assumptions": ["KeyDetermines: the uncached response depends only on (location, qtype, qclass, name) within one generation"],
+        "assumptions": ["2-byte location ids; the query name as asked lower-cases to the key name (ServeValid)"],
     },
 }
